@@ -61,6 +61,8 @@ def _depth2():
     forms = ['a', '1', "'s'", 'a.b', 'a[b]', 'a[b, c]', 'a[b,]', 'a[1:2]', 'f(a)', 'f(a, b=c)', 'f(*a, **b)', '(a,)', '(a, b)', '()',
              '[a]', '[a, b]', '{a}', '{a: b}', 'a if b else c', 'a < b', 'a < b < c', 'a is not b', 'a not in b', 'lambda x: x',
              '-a', 'not a', 'a + b', 'a and b', '*a', 'a.b.c', '1.5', '1e10', '0x10', "b'x'", 'None', 'True', '...',
+             "f'{a}\\n{b}'", "f'x{a!r:>10}y'", "f'''{a}\n{b}'''", "f'{a} {b}'", "'a\\nb'", "'''a\nb'''", "b'a\\nb'",
+             "lambda x: 'a\\nb'", "a if 'x\\ny' else b",
              '[x for x in y]', '{x: y for x in z}', '(x for x in y)', 'a[(b, c)]', 'a[b][c]', 'f(a)(b)', '(a, (b,))', '[(a,)]']
     for f in forms:
         if not f.startswith('*'):
